@@ -133,7 +133,70 @@ def check_dyn(case):
     shutil.rmtree(tmp, ignore_errors=True)
 
 
+CORNER_SOURCES = {
+    # kind: (source, {parameter: acceptable?})
+    'posonly': ('def {n}(a, b=2, /, c=3, *, d=4):\n  return (a, b, c, d)\n',
+                {'a': False, 'b': False, 'c': True, 'd': True, 'zz': False}),
+    'posonly_varkw': ('def {n}(a, /, c=3, **kw):\n  return (a, c, kw)\n',
+                      {'a': True, 'c': True, 'zz': True}),       # a=... lands in **kw: fine
+    'noctor': ('class {n}:\n  pass\n', {'anything': False, 'self': False, 'args': False,
+                                          'kwargs': False}),
+    'class_self': ('class {n}:\n  def __init__(self, x=1):\n    self.x = x\n',
+                   {'self': False, 'x': True, 'zz': False}),
+    'class_new_cls': ('class {n}:\n  def __new__(cls, x=1):\n    o = object.__new__(cls)\n'
+                      '    o.x = x\n    return o\n', {'cls': False, 'x': True}),
+}
+
+
+def check_corner(case):
+  """Signature corners: a parameter the call cannot take by keyword is not a parameter to bind --
+  positional-only parameters, the implicit self / cls of a constructor, and anything at all on a
+  class that defines no constructor."""
+  import sys, types  # pylint: disable=g-import-not-at-top,multiple-imports
+  kind, api_reg = case['corner'], case['reg']
+  src, verdicts = CORNER_SOURCES[kind]
+  mod = types.ModuleType('c11corner')
+  mod.gin = gin
+  sys.modules['c11corner'] = mod
+  exec(src.format(n='probe'), mod.__dict__)  # pylint: disable=exec-used
+  obj = mod.probe
+  if api_reg == 'configurable':
+    gin.configurable(obj)
+  elif api_reg == 'register':
+    gin.register(obj)
+  else:
+    gin.external_configurable(obj, module='c11corner')
+  labels = {'kind:corner', 'corner:' + kind, 'reg:' + api_reg}
+  for api, param in case['attempts']:
+    if param not in verdicts:
+      continue
+    key = f"{case['scope'] + '/' if case['scope'] else ''}c11corner.probe"
+    fn = {'bind_str': lambda: gin.bind_parameter(f'{key}.{param}', 1),
+          'bind_tuple': lambda: gin.bind_parameter((case['scope'], 'c11corner.probe', param), 1),
+          'parse_flat': lambda: gin.parse_config(f'{key}.{param} = 1\n'),
+          'block': lambda: gin.parse_config(f'{key}:\n  {param} = 1\n')}[api]
+    before = gin.config_str()
+    try:
+      fn()
+      raised = None
+    except REJECT as e:
+      raised = e
+    if verdicts[param]:
+      require(raised is None, 'valid-binding-rejected', lambda: f'{kind} {api} {param}: {raised!r}')
+      with gin.unlock_config():
+        gin.clear_config()
+    else:
+      require(raised is not None, 'invalid-binding-accepted',
+              lambda: f'{kind}: {api} {key}.{param} accepted although the call cannot take '
+                      f'{param!r} by keyword')
+      require(gin.config_str() == before, 'rejected-binding-changed-config', '')
+    labels.add('verdict:' + ('accepted' if verdicts[param] else 'rejected'))
+  return ok(labels, True)
+
+
 def check_case(case):
+  if case.get('corner'):
+    return check_corner(case)
   if case.get('dyn'):
     return check_dyn(case)
   res = check_static(case)
@@ -340,8 +403,20 @@ def _dyn_case(draw):
   return {'dyn': True, 'attempts': attempts}
 
 
+@st.composite
+def _corner_case(draw):
+  kind = draw(st.sampled_from(sorted(CORNER_SOURCES)))
+  params = sorted(CORNER_SOURCES[kind][1])
+  return {'corner': kind, 'reg': draw(st.sampled_from(['configurable', 'register', 'external'])),
+          'scope': draw(st.sampled_from(['', 's'])),
+          'attempts': draw(st.lists(st.tuples(
+              st.sampled_from(['bind_str', 'bind_tuple', 'parse_flat', 'block']),
+              st.sampled_from(params)).map(list), min_size=1, max_size=4))}
+
+
 def strategy():
-  return st.one_of(_static_case(), _static_case(), _static_case(), _static_case(), _dyn_case())
+  return st.one_of(_static_case(), _static_case(), _static_case(), _static_case(), _dyn_case(),
+                   _corner_case())
 
 
 @st.composite
